@@ -474,40 +474,71 @@ def rule_p2h(ctx):
     ok_d = isinstance(first, ast.If) and norm(first.test) == "%s is None" % tn and len(first.body) == 1 \
         and norm(first.body[0]).replace(" ", "").replace('"', "'") == "%s=standard_atmosphere(%s,coordinates='pressure')" % (tn, pn)
     ctx.ob("pressure2height.default_T", ok_d, "%s" % norm(first)[:90], "T = standard_atmosphere(p, coordinates='pressure') when no temperature is given", node=first, func=f)
-    # layer mean density and the increment, element model: levels 0,1
-    # roles by value: the density of the levels, its layer mean, the pressure difference of the layers
-    def by_value(pred):
-        hits = [st for sts in A.values() for st in sts if pred(st)]
-        return hits[-1] if hits else None
-    rho = by_value(lambda st: norm(st.value) == "density(%s, %s)" % (pn, tn))
-    rn = rho.targets[0].id if rho is not None else "rho"
-    rl = by_value(lambda st: "%s[:-1]" % rn in norm(st.value) and "%s[1:]" % rn in norm(st.value))
-    ld = by_value(lambda st: bool(calls_in(st.value, "diff")))
-    if rho is None or rl is None or ld is None:
-        raise AnalysisError("pressure2height: density of the levels / layer mean / pressure difference not found")
-    rln, ldn = rl.targets[0].id, ld.targets[0].id
-    ok_r = norm(ld.value) == "np.diff(%s)" % pn and norm(rl.value).replace(" ", "") in ("0.5*(%s[:-1]+%s[1:])" % (rn, rn), "(%s[:-1]+%s[1:])/2" % (rn, rn))
-    ctx.ob("pressure2height.layers", ok_r, "rho = %s; rho_layer = %s; layer_depth = %s" % tuple(norm(s.value) if s else None for s in (rho, rl, ld)),
-           "rho = density(p, T); layer mean = (rho[:-1] + rho[1:])/2; dp = diff(p)", node=rl or f.node, func=f)
-    # z: cumsum(-dp/(rho_layer*g))
+    # layer mean density and the increment, element model of one layer between the levels 0 and 1: the argument of cumsum is evaluated with
+    # diff(p) -> dp, density(p, T)[:-1] -> r0, density(p, T)[1:] -> r1 (temporaries looked through, any spelling the algebra understands)
     cs = calls_in(f.node, "cumsum")
-    ok_z = False
+    ok_z = ok_r = False
     fact = None
+    seen = {"diff": [], "density": []}
     if cs:
         from ..canon import canon
         cc = canon(cs[0])          # x.cumsum() and np.cumsum(x) alike
         if not cc.args:
             raise AnalysisError("pressure2height: cumsum without an argument")
-        arg = flow.resolve(cc.args[0], at=cs[0], depth=3, stop=(rln, ldn, pn, tn))
+        arg = flow.resolve(cc.args[0], at=cs[0], depth=5, stop=(pn, tn))
         fact = norm(arg)
-        dp, rm = sp.symbols("dp rm", positive=True)
-        ev = Sym(ctx.repo)
+        P, T_, dp, r0, r1 = sp.symbols("P T dp r0 r1", positive=True)
+
+        class _Levels:
+            pass
+        RHO = _Levels()
+
+        def h_diff(*a_, **k_):
+            seen["diff"].append(a_)
+            if a_ != (P,) or k_:
+                raise Unsupported("np.diff of something else than the pressure levels")
+            return dp
+
+        def h_density(*a_, **k_):
+            seen["density"].append(a_)
+            if a_ != (P, T_) or k_:
+                raise Unsupported("density(...) not of (p, T)")
+            return RHO
+
+        def h_sub(base, n_, ev_, env_, func_, depth_):
+            if base is RHO and isinstance(n_.slice, ast.Slice) and n_.slice.step is None:
+                lo, hi = n_.slice.lower, n_.slice.upper
+                if lo is None and hi is not None and norm(hi) == "-1":
+                    return r0
+                if hi is None and lo is not None and norm(lo) == "1":
+                    return r1
+            return NotImplemented
+        def h_half(*a_, **k_):
+            # typhon.math.interpolate_halflevels: summary (x[1:] + x[:-1]) / 2 along axis 0, valid for the body read here
+            hf = ctx.func("typhon/math/common.py", "interpolate_halflevels")
+            body = [s_ for s_ in hf.body if not (isinstance(s_, ast.Expr) and isinstance(s_.value, ast.Constant))]
+            txt = str(norm(body[0])).replace(" ", "") if len(body) == 1 else ""
+            x_ = hf.params[0]
+            if txt != "return(np.take(%s,range(1,np.shape(%s)[axis]),axis=axis)+np.take(%s,range(0,np.shape(%s)[axis]-1),axis=axis))/2" % (x_, x_, x_, x_):
+                raise Unsupported("interpolate_halflevels is not the mean of adjacent levels this rule has a summary for")
+            if len(a_) != 1 or a_[0] is not RHO or any(k_x != "axis" or v_x != 0 for k_x, v_x in k_.items()):
+                raise Unsupported("interpolate_halflevels of something else than the level densities")
+            return (r0 + r1) / 2
+        ev = Sym(ctx.repo, hooks={"diff": h_diff, "density": h_density, "subscript": h_sub, "interpolate_halflevels": h_half})
         g = ev.const.get("earth_standard_gravity")
         try:
-            term = ev.expr(arg, {ldn: dp, rln: rm}, f, 0)
-            ok_z = sp.simplify(term + dp / (rm * g)) == 0
+            term = ev.expr(arg, {pn: P, tn: T_}, f, 0)
         except Unsupported as e:
             raise AnalysisError("pressure2height: %s" % e)
+        if isinstance(term, (tuple, _Levels)):
+            raise AnalysisError("pressure2height: the argument of cumsum is not an element-wise expression")
+        ok_z = sp.simplify(term + dp / ((r0 + r1) / 2 * g)) == 0
+        # the pieces: the density of the levels enters as a mean of the two adjacent levels (symmetric, equal to the common value when both
+        # agree), the pressure enters through its difference
+        ok_r = bool(seen["diff"]) and bool(seen["density"]) and sp.simplify(term - term.subs({r0: r1, r1: r0}, simultaneous=True)) == 0 \
+            and sp.simplify(term.subs(r1, r0) + dp / (r0 * g)) == 0
+    ctx.ob("pressure2height.layers", ok_r, "increment %s with dp = np.diff(p), rho = density(p, T)" % fact,
+           "rho = density(p, T); layer mean = (rho[:-1] + rho[1:])/2; dp = diff(p)", node=cs[0] if cs else f.node, func=f)
     ctx.ob("pressure2height.increment", ok_z, "cumsum(%s)" % fact, "cumsum(-dp / (rho_layer * g)): height increases as pressure decreases", node=cs[0] if cs else f.node, func=f)
     # leading zero, float result
     rets = [s for s in flow.stmts if isinstance(s, ast.Return)]
@@ -537,14 +568,61 @@ def rule_p2h(ctx):
 def rule_isa(ctx):
     ctx.rule("C14.isa", "T3", "ISA tables: equal length, heights increase, pressures decrease; the pressure branch takes the log of table and argument")
     f = ctx.func(ATM, "standard_atmosphere")
+    # the tables by their roles in interp1d(X, Y)(Z): Y = <temperatures> + constants.K, X = <heights> in height coordinates and
+    # log(<pressures>) in pressure coordinates (whatever the tables are called and wherever they are written down)
+    flow = Flow(f)
+    ip = [c for c in calls_in(f.node, "interp1d")]
+    if len(ip) != 1 or len(ip[0].args) < 2:
+        raise AnalysisError("standard_atmosphere: interp1d(x, y) call not found")
+    outer = parent(ip[0])
+    zarg = None
+    if isinstance(outer, ast.Call) and outer.func is ip[0] and outer.args:
+        zarg, at_ = outer.args[0], outer
+    else:
+        st_ = enclosing_stmt(ip[0])
+        if isinstance(st_, ast.Assign) and isinstance(st_.targets[0], ast.Name):
+            calls_ = [c for c in calls_in(f.node) if isinstance(c.func, ast.Name) and c.func.id == st_.targets[0].id and c.args]
+            if len(calls_) == 1:
+                zarg, at_ = calls_[0].args[0], calls_[0]
+    if zarg is None:
+        raise AnalysisError("standard_atmosphere: the evaluation point of the interpolator was not found")
+    cn = f.params[1]
+    z0 = f.params[0]
+
+    def literal(e):
+        """the numbers of np.array([...]) / a plain list"""
+        if isinstance(e, ast.Call) and dotted(e.func) in ("np.array", "np.asarray", "numpy.array", "numpy.asarray") and e.args:
+            e = e.args[0]
+        if isinstance(e, (ast.List, ast.Tuple)) and e.elts:
+            try:
+                return [fold(x) if not (isinstance(x, ast.UnaryOp) and isinstance(x.op, ast.UAdd)) else fold(x.operand) for x in e.elts]
+            except Exception:
+                return None
+        return None
+    under = {}
+    for mode in ("pressure", "height"):
+        assume = {}
+        for m2 in ("pressure", "height"):
+            for q_ in ("'", '"'):
+                assume["%s == %s%s%s" % (cn, q_, m2, q_)] = (m2 == mode)
+                assume["%s != %s%s%s" % (cn, q_, m2, q_)] = (m2 != mode)
+        under[mode] = (flow.resolve_under(ip[0].args[0], assume, at=ip[0], stop=(z0,)), flow.resolve_under(zarg, assume, at=at_, stop=()),
+                       flow.resolve_under(ip[0].args[1], assume, at=ip[0], stop=(z0,)))
     tabs = {}
-    for st in f.body:
-        if isinstance(st, ast.Assign) and isinstance(st.targets[0], ast.Name) and isinstance(st.value, ast.Call) \
-                and dotted(st.value.func) in ("np.array", "np.asarray") and isinstance(st.value.args[0], (ast.List, ast.Tuple)):
-            tabs[st.targets[0].id] = [fold(e) if not (isinstance(e, ast.UnaryOp) and isinstance(e.op, ast.UAdd)) else fold(e.operand)
-                                      for e in st.value.args[0].elts]
-    if set(tabs) != {"h", "p", "temp"}:
-        raise AnalysisError("standard_atmosphere: tables h, p, temp not found (%s)" % sorted(tabs))
+    xh, xp = under["height"][0], under["pressure"][0]
+    tabs["h"] = literal(xh)
+    logp = isinstance(xp, ast.Call) and dotted(xp.func) in ("np.log", "numpy.log", "math.log") and len(xp.args) == 1
+    tabs["p"] = literal(xp.args[0]) if logp else literal(xp)
+    yv = under["height"][2]
+    kelvin = isinstance(yv, ast.BinOp) and isinstance(yv.op, ast.Add) and "constants.K" in (str(norm(yv.left)), str(norm(yv.right)))
+    if kelvin:
+        tabs["temp"] = literal(yv.right if str(norm(yv.left)) == "constants.K" else yv.left)
+    else:
+        tabs["temp"] = None
+    if str(norm(under["height"][2])) != str(norm(under["pressure"][2])):
+        raise AnalysisError("standard_atmosphere: the interpolated temperatures differ between the two coordinates")
+    if any(v is None for v in tabs.values()):
+        raise AnalysisError("standard_atmosphere: tables of heights, pressures, temperatures (+ constants.K) not found in interp1d(X, Y): %s" % sorted(k for k, v in tabs.items() if v is None))
     h, p, t = tabs["h"], tabs["p"], tabs["temp"]
     ctx.ob("standard_atmosphere.lengths", len(h) == len(p) == len(t) and len(h) >= 2, "lengths h/p/temp = %d/%d/%d" % (len(h), len(p), len(t)), "equal", node=f.node, func=f)
     mono = all(a < b for a, b in zip(h, h[1:])) and all(a > b for a, b in zip(p, p[1:])) and all(x > 0 for x in p)
@@ -573,32 +651,13 @@ def rule_isa(ctx):
                witness=None if abs(worst[1]) <= 2e-3 else {"level": worst[0] + 1, "height": h[worst[0] + 1], "pressure in table": p[worst[0] + 1],
                                                             "relative deviation": worst[1]})
     # the interpolation interp1d(X, T)(Z): in pressure coordinates both X and Z are logarithms, in height coordinates neither
-    flow = Flow(f)
-    ip = [c for c in calls_in(f.node, "interp1d")]
-    if len(ip) != 1 or len(ip[0].args) < 2:
-        raise AnalysisError("standard_atmosphere: interp1d(x, y) call not found")
-    outer = parent(ip[0])
-    zarg = None
-    if isinstance(outer, ast.Call) and outer.func is ip[0] and outer.args:
-        zarg, at_ = outer.args[0], outer
-    else:
-        st_ = enclosing_stmt(ip[0])
-        if isinstance(st_, ast.Assign) and isinstance(st_.targets[0], ast.Name):
-            calls_ = [c for c in calls_in(f.node) if isinstance(c.func, ast.Name) and c.func.id == st_.targets[0].id and c.args]
-            if len(calls_) == 1:
-                zarg, at_ = calls_[0].args[0], calls_[0]
-    if zarg is None:
-        raise AnalysisError("standard_atmosphere: the evaluation point of the interpolator was not found")
-    cn = f.params[1]
-    got = {}
-    for mode in ("pressure", "height"):
-        assume = {}
-        for m2 in ("pressure", "height"):
-            for q_ in ("'", '"'):
-                assume["%s == %s%s%s" % (cn, q_, m2, q_)] = (m2 == mode)
-        got[mode] = (norm(flow.resolve_under(ip[0].args[0], assume, at=ip[0], stop=(f.params[0], "p", "h"))).replace(" ", ""),
-                     norm(flow.resolve_under(zarg, assume, at=at_, stop=("p", "h"))).replace(" ", ""))
-    z0 = f.params[0]
+    def shape(e, tab):
+        e2 = e
+        logd = isinstance(e2, ast.Call) and dotted(e2.func) in ("np.log", "numpy.log", "math.log") and len(e2.args) == 1
+        inner = e2.args[0] if logd else e2
+        what = tab if literal(inner) is not None else str(norm(inner)).replace(" ", "")
+        return "np.log(%s)" % what if logd else what
+    got = {"pressure": (shape(xp, "p"), shape(under["pressure"][1], "?")), "height": (shape(xh, "h"), shape(under["height"][1], "?"))}
     ok = got["pressure"] == ("np.log(p)", "np.log(%s)" % z0) and got["height"] == ("h", z0)
     ctx.ob("standard_atmosphere.pressure_branch", ok, "pressure: interp1d(%s, ..)(%s); height: interp1d(%s, ..)(%s)" % (got["pressure"] + got["height"]),
            "z_ref = log(p table) and z = log(z): both sides of the interpolation in log-pressure; plain heights otherwise",
